@@ -120,8 +120,13 @@ class Inst:
         return self.ret.startswith('Except ')
 
     @property
+    def heaped(self):
+        """'Heap T' (units with hook `pycoll`): the instance creates / mutates objects — it takes the heap, returns (heap, T)"""
+        return self.ret.startswith('Heap ')
+
+    @property
     def value_type(self):
-        return self.ret[len('Except '):] if self.raises else self.ret
+        return self.ret[len('Except '):] if self.raises else self.ret[len('Heap '):] if self.heaped else self.ret
 
     def key(self):
         return (self.qual, tuple(t for _n, t in self.params[1:])) if self.params and self.params[0][0] == 'self' \
@@ -135,8 +140,12 @@ LEAN_TYPE = {'Dt': 'Int', 'Td': 'Int', 'Int': 'Int', 'Bool': 'Bool', 'TI': 'GV.T
 def lean_type(t):
     if t.startswith('Except '):
         return 'Except String ' + _paren(lean_type(t[7:]))
+    if t.startswith('Heap '):
+        return LEAN_TYPE['HeapT'] + ' × ' + _parenw(lean_type(t[5:]))
     if t.startswith('Prod '):
         return ' × '.join(_paren(lean_type(p)) for p in _prod_parts(t))
+    if t.startswith('List Prod '):
+        return 'List ' + _parenw(lean_type(t[5:]))         # (`(A) × (B)` is not one parenthesised group)
     if t.startswith('List '):
         return 'List ' + _paren(lean_type(t[5:]))
     if t.startswith('Fn '):
@@ -144,6 +153,9 @@ def lean_type(t):
         return f'{lean_type(dom)} → {lean_type(cod)}'
     if t.startswith('Set '):
         return 'List ' + _paren(lean_type(t[4:]))
+    if t.startswith('DDL '):                       # defaultdict(list) of the `pycoll` units: insertion-ordered (key, values) pairs
+        k, v = _prod_parts('Prod ' + t[4:])
+        return f'List ({lean_type(k)} × List {_paren(lean_type(v))})'
     if t.startswith(('DDict ', 'Dict ')) and len(t.split()) == 3:
         # `defaultdict(list)` key -> list of values / a plain dict, both as association lists in insertion order
         k, v = t.split()[1:3]
@@ -174,6 +186,24 @@ def mk_prod(types):
 
 def _paren(s):
     return f'({s})' if ' ' in s and not s.startswith('(') else s
+
+
+def _parenw(s):
+    """like `_paren`, but `(A) × (B)` — which starts with `(` without being one group — is wrapped too"""
+    return f'({s})' if ' ' in s and not _wrapped(s) else s
+
+
+def _wrapped(s):
+    """`s` is one parenthesised group: its first `(` closes at its last character"""
+    if not (s.startswith('(') and s.endswith(')')):
+        return False
+    depth = 0
+    for i, ch in enumerate(s):
+        depth += ch == '('
+        depth -= ch == ')'
+        if depth == 0 and i < len(s) - 1:
+            return False
+    return True
 
 
 LEAN_RESERVED = {'end', 'at', 'from', 'in', 'then', 'else', 'do', 'let', 'fun', 'match', 'with', 'where', 'instance', 'class',
@@ -248,9 +278,13 @@ class Unit:
 
     def render_inst(self, inst):
         fn = self.src.get(inst.qual)
+        want = self.hooks.get('decorators', {}).get(inst.qual)          # decorators a unit relies on (`property`, not cached)
+        if want is not None and self.src.decorators(inst.qual) != want:
+            raise Unsupported(f'`{inst.qual}`: decorators {self.src.decorators(inst.qual)}, the unit reads it under {want}')
         tr = FnTr(self, inst, fn)
         body = tr.function_body()
         binders = ' '.join([f'({n} : {t})' for n, t in self.ctx_params] +
+                           ([f'(heap_0 : {LEAN_TYPE["HeapT"]})'] if inst.heaped else []) +
                            [f'({lname(n)} : {lean_type(t)})' for n, t in inst.params if t != 'None'])
         shown = ast.parse(ast.unparse(fn)).body[0]
         if (shown.body and isinstance(shown.body[0], ast.Expr) and isinstance(getattr(shown.body[0], 'value', None), ast.Constant)
@@ -286,6 +320,7 @@ class FnTr:
         self.aux = []            # auxiliary recursive definitions (loops), emitted before the function
         self.fields = {}         # __init__: attribute -> Val
         self.localfns = {}       # name of a function defined in this body -> its qualified name ('outer.inner')
+        self.heap = 'heap_0' if inst.heaped else None      # Lean text of the current heap (instances declared 'Heap T')
         for n, t in inst.params:
             self.env[n] = Val(lname(n), t, path=n)
         if fn.args.kwarg is not None:
@@ -319,6 +354,7 @@ class FnTr:
         c.aux = self.aux         # shared: loops met in any branch are emitted once, before the function
         c.localfns = dict(getattr(self, 'localfns', {}))
         c.no_return = getattr(self, 'no_return', False)
+        c.heap = getattr(self, 'heap', None)
         return c
 
     def wrap(self, text):
@@ -337,6 +373,8 @@ class FnTr:
 
     # ---- results ---------------------------------------------------------------------------------------
     def ok(self, text):
+        if getattr(self, 'heap', None) is not None:
+            return f'({self.heap}, {text})'
         return f'Except.ok {_paren(text)}' if self.inst.raises else text
 
     def err(self, exc):
@@ -380,6 +418,10 @@ class FnTr:
         s, rest = stmts[0], stmts[1:]
         if self.u.hooks.get('worklist'):
             ext = self.ext_stmt(s, rest)          # work-list subset (local sets / dicts, nested loops): see `ext_stmt`
+            if ext is not None:
+                return ext
+        if self.u.hooks.get('pycoll'):
+            ext = self.pc_stmt(s, rest)           # `continue`, appends with raising arguments, `d[k].append(v)`: see `pc_stmt`
             if ext is not None:
                 return ext
         if isinstance(s, (ast.Pass, ast.Import, ast.ImportFrom)):
@@ -604,6 +646,15 @@ class FnTr:
             mine = self.u.hooks['isinstance'](v.typ) if 'isinstance' in self.u.hooks else None
             if mine is None:
                 raise Unsupported(f'`{self.inst.qual}`: isinstance on a value of type {v.typ}')
+            if hasattr(mine, 'no'):
+                # an *abstract* type: `mine` are the classes it is known to be an instance of, `mine.no` the ones it is known
+                # not to be; a test against any other class is not decided by the instance's types
+                if any(n in mine for n in names):
+                    return True
+                und = [n for n in names if n not in mine.no]
+                if und:
+                    raise Unsupported(f'`{self.inst.qual}`: isinstance({v.typ}, {"/".join(und)}) is not decided by the declared types')
+                return False
             return any(n in mine for n in names)
         if isinstance(test, ast.Compare) and len(test.ops) == 1 and isinstance(test.ops[0], (ast.Is, ast.IsNot)) \
                 and isinstance(test.comparators[0], ast.Constant) and test.comparators[0].value is None:
@@ -776,6 +827,7 @@ class FnTr:
                 nm = self.gensym(lname(t.id))
                 if self.pending:
                     self.env[t.id] = Val(nm, v.typ, path=t.id)
+                    self.env[t.id].fresh = getattr(v, 'fresh', False)
                     self.narrow.pop(t.id, None)
                     pend, self.pending = self.pending, []
                     inner = self.block(rest) if (t, v) == pairs[-1] else None
@@ -785,6 +837,9 @@ class FnTr:
                     return '\n'.join(lets + [self.wrap(f'let {nm} := {v.text}\n{inner}')])
                 lets.append(f'let {nm} := {v.text}')
                 self.env[t.id] = Val(nm, v.typ, path=t.id)
+                self.env[t.id].fresh = getattr(v, 'fresh', False)
+                # `ys = xs` / `ys = self.xs`: a second name for the same list object — growing it would change the other too
+                self.env[t.id].alias = isinstance(value, (ast.Name, ast.Attribute)) and v.typ.startswith(('List ', 'Set ', 'DDL '))
                 self.narrow.pop(t.id, None)
             elif isinstance(t, ast.Attribute) and isinstance(t.value, ast.Name) and t.value.id == 'self' \
                     and self.inst.qual.endswith('.__init__'):
@@ -844,6 +899,8 @@ class FnTr:
         xs = self.iterable(s.iter)
         if not xs.typ.startswith('List '):
             raise Unsupported(f'`{self.inst.qual}`: loop over {xs.typ}')
+        if getattr(self, 'heap', None) is not None:
+            return self.pc_for_store(s, rest, xs)
         pair = isinstance(s.target, ast.Tuple) and len(s.target.elts) == 2 and all(isinstance(t, ast.Name) for t in s.target.elts) \
             and len(_prod_parts(xs.typ[5:])) == 2
         if (isinstance(s.target, ast.Name) or pair) and len(s.body) == 1 and isinstance(s.body[0], ast.If) and not s.body[0].orelse and len(s.body[0].body) == 1 \
@@ -867,6 +924,274 @@ class FnTr:
             self.pending = pend
             return self.wrap(f'if ({xs.text}).any (fun {x} => {c}) then {self.ok("true" if k else "false")} else\n{_indent(after)}')
         return self.for_general(s, rest, xs)
+
+    # ---- the collection subset of the `pycoll` units (SrcTrack, SrcMulti) ---------------------------------------------
+    #
+    # `continue`; `xs.append(e)` where `e` holds calls that may raise; a `defaultdict(list)` as an insertion-ordered
+    # association list (`DDL K V`, `d[k].append(v)` = `GV.Py.ddAppend`); lists indexed by an int (`GV.Py.getIdxI`: Python's
+    # rule, IndexError outside); float `/` that raises on a zero divisor; `len` / `range` / `sum` / `min(xs)` / `max(xs)` /
+    # `list(zip(*rows))`; map and dict comprehensions; conditional expressions with an arm that may raise; and instances that
+    # work on a heap of objects (`Heap T`: `pc_for_store`, object-creating calls in `call`).  Lean side: Model/PyColl.lean.
+
+    def pc_stmt(self, s, rest):
+        """a statement of the collection subset, or None (then the ordinary translation applies)"""
+        if isinstance(s, ast.Continue):
+            if self.on_fall is None:
+                raise Unsupported(f'`{self.inst.qual}`: `continue` outside a translated loop')
+            return self.on_fall(self)             # the next iteration with the current state; what follows is not run
+        c = s.value if isinstance(s, ast.Expr) else None
+        if isinstance(c, ast.Call) and isinstance(c.func, ast.Attribute) and c.func.attr == 'append' and len(c.args) == 1 \
+                and isinstance(c.func.value, ast.Name) and c.func.value.id in self.env \
+                and self.env[c.func.value.id].typ.startswith('List '):
+            n = c.func.value.id
+            v = self.expr(c.args[0])
+            old = self.env[n]
+            if getattr(old, 'alias', False) or n in [p for p, _t in self.inst.params]:
+                raise Unsupported(f'`{self.inst.qual}`: `{n}.append(…)` on a list that is also reachable under another name')
+            if old.typ != 'List ' + v.typ:
+                raise Unsupported(f'append of {v.typ} to {old.typ}')
+            nm = self.gensym(lname(n))
+            self.env[n] = Val(nm, old.typ, path=n)
+            pend, self.pending = self.pending, []      # raising calls inside the appended value: bound first
+            inner = self.block(rest)
+            self.pending = pend
+            return self.wrap(f'let {nm} := ({old.text} ++ [{v.text}])\n' + inner)
+        if isinstance(c, ast.Call) and isinstance(c.func, ast.Attribute) and c.func.attr == 'append' and len(c.args) == 1 \
+                and isinstance(c.func.value, ast.Subscript) and isinstance(c.func.value.value, ast.Name) \
+                and c.func.value.value.id in self.env and self.env[c.func.value.value.id].typ.startswith('DDL '):
+            # `d[k].append(v)` on a local `defaultdict(list)`
+            n = c.func.value.value.id
+            old = self.env[n]
+            kt, vt = _prod_parts('Prod ' + old.typ[4:])
+            k = self.expr(c.func.value.slice)
+            v = self.expr(c.args[0])
+            if (k.typ, v.typ) != (kt, vt):
+                raise Unsupported(f'`{ast.unparse(s)}`: ({k.typ}, {v.typ}) into {old.typ}')
+            nm = self.gensym(lname(n))
+            self.env[n] = Val(nm, old.typ, path=n)
+            pend, self.pending = self.pending, []
+            inner = self.block(rest)
+            self.pending = pend
+            return self.wrap(f'let {nm} := (GV.Py.ddAppend {old.text} {_paren(k.text)} {_paren(v.text)})\n' + inner)
+        return None
+
+    def pc_expr(self, e):
+        """an expression of the collection subset, or None"""
+        if isinstance(e, ast.IfExp) and self.static_test(e.test) is None and not self.has_optional_test(e.test):
+            if self.inst.raises:
+                r = self.pc_ifexp_raising(e)
+                if r is not None:
+                    return r
+            a, b = self.expr(e.body), self.expr(e.orelse)
+            if {a.typ, b.typ} == {'R', 'Int'}:
+                a, b = self.unify_num(a, b)               # `0 if c else x` next to a float: the same number
+            if a.typ != b.typ:
+                raise Unsupported(f'conditional expression of types {a.typ} / {b.typ}')
+            return Val(f'(if {self.truth(self.expr(e.test))} then {a.text} else {b.text})', a.typ)
+        if isinstance(e, ast.BinOp) and isinstance(e.op, ast.Div):
+            a, b = self.unify_num(self.expr(e.left), self.expr(e.right))
+            if a.typ == b.typ == 'R':
+                r = Val(f'(GV.Py.divR {a.text} {b.text})', 'R')              # ZeroDivisionError on a zero divisor
+                r.raises = True
+                return r
+            raise Unsupported(f'`{ast.unparse(e)[:60]}`: {a.typ} / {b.typ}')
+        if isinstance(e, ast.Subscript) and not isinstance(e.slice, ast.Slice) and not (
+                isinstance(e.slice, ast.Constant) and (isinstance(e.slice.value, str) or isinstance(e.slice.value, int) and e.slice.value >= 0)):
+            v = self.expr(e.value)                    # `xs[-1]`, `xs[i]` for an int `i`: Python's index rule
+            i = self.expr(e.slice) if v.typ.startswith('List ') else None
+            if i is None or i.typ != 'Int':
+                raise Unsupported(f'`{self.inst.qual}`: subscript `{ast.unparse(e)}` of {v.typ}')
+            r = Val(f'(GV.Py.getIdxI {_paren(v.text)} {i.text})', v.typ[5:])
+            r.raises = True
+            return r
+        if isinstance(e, ast.ListComp) and len(e.generators) == 1 and not e.generators[0].ifs:
+            return self.pc_map_comp(e)             # `[f(x) for x in xs]`, `[f(x, y) for x, y in zip(xs, ys)]`
+        if isinstance(e, ast.DictComp):
+            return self.pc_dict_comp(e)
+        if isinstance(e, ast.Call) and isinstance(e.func, ast.Name) and e.func.id not in self.env and not e.keywords:
+            f = e.func
+            if f.id == 'defaultdict' and len(e.args) == 1 and isinstance(e.args[0], ast.Name) and e.args[0].id == 'list':
+                return Val('[]', 'DDL ?')
+            if f.id == 'len' and len(e.args) == 1:
+                v = self.expr(e.args[0])
+                if v.typ.startswith('List '):
+                    return Val(f'(GV.Py.len {v.text})', 'Int')
+                raise Unsupported(f'len() of {v.typ}')
+            if f.id == 'range' and len(e.args) in (1, 2):
+                vals = [self.expr(a) for a in e.args]
+                if all(v.typ == 'Int' for v in vals):
+                    lo = vals[0].text if len(vals) == 2 else '(0 : Int)'
+                    return Val(f'(GV.Py.rangeI {lo} {vals[-1].text})', 'List Int')
+                raise Unsupported('range() of ' + ', '.join(v.typ for v in vals))
+            if f.id == 'sum' and len(e.args) == 1:
+                v = self.expr(e.args[0])
+                if v.typ == 'List R':
+                    return Val(f'(GV.Py.sumR {v.text})', 'R')
+                raise Unsupported(f'sum() of {v.typ}')
+            if f.id in ('min', 'max') and len(e.args) == 1:
+                v = self.expr(e.args[0])
+                if v.typ == 'List R':
+                    r = Val(f'(GV.Py.{f.id}L {v.text})', 'R')       # the first extremal element; ValueError on an empty sequence
+                    r.raises = True
+                    return r
+                raise Unsupported(f'{f.id}() of {v.typ}')
+            if f.id == 'list' and len(e.args) == 1 and isinstance(e.args[0], ast.Call) and isinstance(e.args[0].func, ast.Name) \
+                    and e.args[0].func.id == 'zip' and len(e.args[0].args) == 1 and isinstance(e.args[0].args[0], ast.Starred):
+                v = self.expr(e.args[0].args[0].value)          # `list(zip(*rows))`: the columns
+                parts = _prod_parts(v.typ[5:]) if v.typ.startswith('List Prod ') else []
+                if v.typ.startswith('List Tuple4 '):
+                    r = Val(f'(GV.Py.unzip4 {v.text})', 'Tuple4 List ' + v.typ.split(' ', 2)[2])
+                    r.raises = True                              # unpacking the columns of an empty list: ValueError
+                    return r
+                if len(parts) != 2:
+                    raise Unsupported(f'zip(*…) of {v.typ}')
+                r = Val(f'(GV.Py.unzip2 {v.text})', f'Prod {_paren("List " + parts[0])} {_paren("List " + parts[1])}')
+                r.raises = True
+                return r
+            if f.id == 'list' and len(e.args) == 1:
+                v = self.expr(e.args[0])
+                if v.typ.startswith('List '):
+                    return v                                     # `list(xs)` of a list: a list is a value here
+                raise Unsupported(f'list() of {v.typ}')
+        return None
+
+    def pc_map_comp(self, e):
+        """`[f(x) for x in xs]` -> `xs.map`; the element expression must not raise.  In an instance that works on the heap an
+        element expression that creates objects threads the heap through the list (`GV.Py.mapH`)."""
+        gen = e.generators[0]
+        xs = self.expr(gen.iter)
+        if not xs.typ.startswith('List '):
+            raise Unsupported(f'comprehension over {xs.typ}')
+        tgt = gen.target
+        pair = isinstance(tgt, ast.Tuple) and len(tgt.elts) == 2 and all(isinstance(t, ast.Name) for t in tgt.elts)
+        if not (isinstance(tgt, ast.Name) or pair):
+            raise Unsupported(f'`{self.inst.qual}`: comprehension target `{ast.unparse(tgt)}`')
+        x = self.gensym(lname(tgt.id) if not pair else 'pair')
+        inner = self.sub()
+        inner.fresh = self.fresh
+        if pair:
+            parts = _prod_parts(xs.typ[5:])
+            if len(parts) != 2:
+                raise Unsupported(f'unpacking {xs.typ[5:]} into two names')
+            for i, t in enumerate(tgt.elts):
+                inner.env[t.id] = Val(f'{x}.{i + 1}', parts[i], path=t.id)
+        else:
+            inner.env[tgt.id] = Val(x, xs.typ[5:], path=tgt.id)
+        hh = None
+        if self.heap is not None:
+            hh = inner.gensym('heap')
+            inner.heap = hh
+        v = inner.expr(e.elt, allow_raise=True)
+        if any(not isinstance(n, LetName) for n, _c in inner.pending) or getattr(v, 'raises', False):
+            raise Unsupported(f'`{self.inst.qual}`: a call that may raise inside `{ast.unparse(e)[:60]}`')
+        if inner.pending:
+            if hh is None:
+                raise Unsupported(f'`{self.inst.qual}`: object updates inside `{ast.unparse(e)[:60]}`')
+            body = inner.wrap(f'({inner.heap}, {v.text})')
+            self.fresh = inner.fresh
+            nm = self.gensym('hr')
+            self.pending.append((LetName(nm), f'GV.Py.mapH (fun {hh} {x} =>\n{_indent(body, 4)}) {self.heap} {xs.text}'))
+            self.heap = f'{nm}.1'
+            r = Val(f'{nm}.2', 'List ' + v.typ)
+            r.fresh = getattr(v, 'fresh', False)
+            return r
+        self.fresh = inner.fresh
+        return Val(f'(({xs.text}).map (fun {x} => {v.text}))', 'List ' + v.typ)
+
+    def pc_dict_comp(self, e):
+        """`{k: v for a in xs for k, v in <pairs of a>}` / `{k: v for k, v in <pairs>}`: later pairs overwrite in place"""
+        g = e.generators
+        last = g[-1]
+        ok = (len(g) in (1, 2) and not any(x.ifs for x in g) and isinstance(last.target, ast.Tuple) and len(last.target.elts) == 2
+              and all(isinstance(t, ast.Name) for t in last.target.elts)
+              and isinstance(e.key, ast.Name) and isinstance(e.value, ast.Name)
+              and [e.key.id, e.value.id] == [t.id for t in last.target.elts] and e.key.id != e.value.id
+              and (len(g) == 1 or isinstance(g[0].target, ast.Name)))
+        if not ok:
+            raise Unsupported(f'`{self.inst.qual}`: dict comprehension `{ast.unparse(e)[:80]}`')
+        if len(g) == 1:
+            pairs = self.expr(last.iter)
+            text = pairs.text
+        else:
+            xs = self.expr(g[0].iter)
+            if not xs.typ.startswith('List '):
+                raise Unsupported(f'comprehension over {xs.typ}')
+            x = self.gensym(lname(g[0].target.id))
+            inner = self.sub()
+            inner.fresh = self.fresh
+            inner.env[g[0].target.id] = Val(x, xs.typ[5:], path=g[0].target.id)
+            pairs = inner.expr(last.iter)
+            if inner.pending:
+                raise Unsupported(f'`{self.inst.qual}`: a call that may raise inside a dict comprehension')
+            self.fresh = inner.fresh
+            text = f'(({xs.text}).flatMap (fun {x} => {pairs.text}))'
+        if pairs.typ != 'List Prod Str PVal':
+            raise Unsupported(f'dict comprehension over {pairs.typ}')
+        return Val(f'(GV.Py.dictOf {text})', 'Props')
+
+    def pc_ifexp_raising(self, e):
+        """`a if c else b` where an arm holds a call that may raise: the call is made only when its arm is chosen"""
+        ta, tb = self.sub(), self.sub()
+        ta.fresh = tb.fresh = self.fresh + 1000           # scratch translation: names must not collide with the caller's
+        try:
+            ta.expr(e.body), tb.expr(e.orelse)
+        except Unsupported:
+            return None
+        if not (ta.pending or tb.pending):
+            return None
+        c = self.truth(self.expr(e.test))                 # the test is evaluated first (its own raising calls are bound outside)
+        ta, tb = self.sub(), self.sub()
+        ta.fresh = tb.fresh = self.fresh
+        a = ta.expr(e.body)
+        tb.fresh = ta.fresh
+        b = tb.expr(e.orelse)
+        self.fresh = tb.fresh
+        if {a.typ, b.typ} == {'R', 'Int'}:
+            a, b = self.unify_num(a, b)
+        if a.typ != b.typ:
+            raise Unsupported(f'conditional expression of types {a.typ} / {b.typ}')
+        arm_a = ta.wrap(f'Except.ok {_paren(a.text)}')
+        arm_b = tb.wrap(f'Except.ok {_paren(b.text)}')
+        r = Val(f'(if {c} then\n{_indent(arm_a)}\nelse\n{_indent(arm_b)})', a.typ)
+        r.raises = True
+        return r
+
+    def pc_for_store(self, s, rest, xs):
+        """`for x in xs: x.f = e; x.g = e'` in an instance that works on the heap: every element is replaced by the updated
+        record.  Only over a local list of *fresh* objects (built by this function from calls declared to return new
+        objects): a store through a list whose elements may be shared is outside the subset."""
+        ok = (isinstance(s.target, ast.Name) and isinstance(s.iter, ast.Name) and s.iter.id in self.env and s.body
+              and all(isinstance(b, ast.Assign) and len(b.targets) == 1 and isinstance(b.targets[0], ast.Attribute)
+                      and isinstance(b.targets[0].value, ast.Name) and b.targets[0].value.id == s.target.id for b in s.body))
+        if not ok:
+            raise Unsupported(f'`{self.inst.qual}`: loop `{ast.unparse(s)[:60]}` in an instance that works on the heap')
+        if not getattr(self.env[s.iter.id], 'fresh', False):
+            raise Unsupported(f'`{self.inst.qual}`: attribute stores through `{s.iter.id}`, whose elements may be shared objects')
+        elem = xs.typ[5:]
+        stores = self.u.hooks.get('stores', {})
+        hh, x = self.gensym('heap'), self.gensym(lname(s.target.id))
+        inner = self.sub()
+        inner.fresh = self.fresh
+        inner.heap = hh
+        cur = x
+        for b in s.body:
+            inner.env[s.target.id] = Val(cur, elem, path=None)
+            v = inner.expr(b.value)
+            field = stores.get((elem, b.targets[0].attr))
+            if not field or field[1] != v.typ:
+                raise Unsupported(f'`{self.inst.qual}`: store `{ast.unparse(b)}` of {v.typ} into {elem}')
+            cur = f'{{ {cur} with {field[0]} := {v.text} }}'
+        if any(not isinstance(n, LetName) for n, _c in inner.pending):
+            raise Unsupported(f'`{self.inst.qual}`: a call that may raise inside a storing loop')
+        body = inner.wrap(f'({inner.heap}, {cur})')
+        self.fresh = inner.fresh
+        nm = self.gensym('hr')
+        call = f'GV.Py.mapH (fun {hh} {x} =>\n{_indent(body, 4)}) {self.heap} {xs.text}'
+        self.heap = f'{nm}.1'
+        new = Val(f'{nm}.2', xs.typ, path=s.iter.id)
+        new.fresh = True
+        self.env[s.iter.id] = new
+        return f'let {nm} := {call}\n' + self.block(rest)
 
     def while_stmt(self, s, rest):
         """`while c: body` (assignments only) as a *fuelled* recursion: an auxiliary definition over a `Nat` fuel and the
@@ -909,10 +1234,12 @@ class FnTr:
             nm = aux.gensym(lname(n))
             fixed_b.append((nm, self.env[n].typ))
             aux.env[n] = Val(nm, self.env[n].typ, path=n)
+            aux.env[n].alias = getattr(self.env[n], 'alias', False)      # (a second name for a list object stays one)
         for n in state:
             nm = aux.gensym(lname(n))
             state_b.append((nm, self.env[n].typ))
             aux.env[n] = Val(nm, self.env[n].typ, path=n)
+            aux.env[n].alias = getattr(self.env[n], 'alias', False)      # (a second name for a list object stays one)
         fuel = aux.gensym('fuel')
         after_tr = aux.sub()
         after_tr.fresh = aux.fresh
@@ -988,10 +1315,12 @@ class FnTr:
             nm = aux.gensym(lname(n))
             fixed_b.append((nm, self.env[n].typ))
             aux.env[n] = Val(nm, self.env[n].typ, path=n)
+            aux.env[n].alias = getattr(self.env[n], 'alias', False)      # (a second name for a list object stays one)
         for n in state:
             nm = aux.gensym(lname(n))
             state_b.append((nm, self.env[n].typ))
             aux.env[n] = Val(nm, self.env[n].typ, path=n)
+            aux.env[n].alias = getattr(self.env[n], 'alias', False)      # (a second name for a list object stays one)
         fuel = aux.gensym('fuel')
         types = [self.env[n].typ for n in state]
 
@@ -1089,6 +1418,12 @@ class FnTr:
             if isinstance(n, ast.Expr) and isinstance(n.value, ast.Call) and isinstance(n.value.func, ast.Attribute) \
                     and n.value.func.attr in ('add', 'append', 'pop') and isinstance(n.value.func.value, ast.Name):
                 assigned.add(n.value.func.value.id)
+            if self.u.hooks.get('pycoll') and isinstance(n, ast.Expr) and isinstance(n.value, ast.Call) \
+                    and isinstance(n.value.func, ast.Attribute) and n.value.func.attr == 'append' \
+                    and isinstance(n.value.func.value, ast.Subscript) and isinstance(n.value.func.value.value, ast.Name):
+                assigned.add(n.value.func.value.value.id)          # `d[k].append(v)`
+            if isinstance(n, ast.Continue) and self.u.hooks.get('pycoll'):
+                continue                                           # the next iteration with the current state (`pc_stmt`)
             if isinstance(n, (ast.Continue, ast.Try, ast.With)) or isinstance(n, ast.Break) and not self.u.hooks.get('value_semantics'):
                 raise Unsupported(f'`{self.inst.qual}`: `{type(n).__name__}` inside a loop body')
         has_break = _has_break(s.body)       # `break`: the code after the loop becomes a definition of its own (`<loop>.after`)
@@ -1120,10 +1455,12 @@ class FnTr:
             nm = aux.gensym(lname(n))
             fixed_b.append((nm, self.env[n].typ))
             aux.env[n] = Val(nm, self.env[n].typ, path=n)
+            aux.env[n].alias = getattr(self.env[n], 'alias', False)      # (a second name for a list object stays one)
         for n in state:
             nm = aux.gensym(lname(n))
             state_b.append((nm, self.env[n].typ))
             aux.env[n] = Val(nm, self.env[n].typ, path=n)
+            aux.env[n].alias = getattr(self.env[n], 'alias', False)      # (a second name for a list object stays one)
         item, items = aux.gensym('item'), aux.gensym('items')
         # [] : the code after the loop
         after_tr = aux.sub()
@@ -1184,7 +1521,8 @@ class FnTr:
                 return text.replace('\x01', '').replace('\x02', '')
             after_def, after, body, binders = [resolve(x) for x in after_def], resolve(after), resolve(body), resolve(binders)
             fixed = [n for i, n in enumerate(fixed) if i not in dead]
-        sig = ' → '.join([f'List {_paren(lean_type(elem))}'] + [lean_type(t) for _n, t in state_b] + [lean_type(self.inst.ret)])
+        sig = ' → '.join([f'List {(_parenw if self.u.hooks.get("pycoll") else _paren)(lean_type(elem))}'] +
+                         [lean_type(t) for _n, t in state_b] + [lean_type(self.inst.ret)])
         pat_state = ''.join(f', {n}' for n, _t in state_b)
         self.aux[slot] = ('\n'.join(after_def + [
             f'/-- the `for {ast.unparse(s.target)} in {ast.unparse(s.iter)}` loop of `{self.inst.qual}`: state ' +
@@ -1323,10 +1661,12 @@ class FnTr:
             nm = aux.gensym(lname(n))
             fixed_b.append((nm, self.env[n].typ))
             aux.env[n] = Val(nm, self.env[n].typ, path=n)
+            aux.env[n].alias = getattr(self.env[n], 'alias', False)      # (a second name for a list object stays one)
         for n in state:
             nm = aux.gensym(lname(n))
             state_b.append((nm, self.env[n].typ))
             aux.env[n] = Val(nm, self.env[n].typ, path=n)
+            aux.env[n].alias = getattr(self.env[n], 'alias', False)      # (a second name for a list object stays one)
         return aux, fixed_b, state_b
 
     def while_worklist(self, s, rest):
@@ -1688,10 +2028,12 @@ class FnTr:
             nm = aux.gensym(lname(n))
             fixed_b.append((nm, self.env[n].typ))
             aux.env[n] = Val(nm, self.env[n].typ, path=n)
+            aux.env[n].alias = getattr(self.env[n], 'alias', False)      # (a second name for a list object stays one)
         for n in state:
             nm = aux.gensym(lname(n))
             state_b.append((nm, self.env[n].typ))
             aux.env[n] = Val(nm, self.env[n].typ, path=n)
+            aux.env[n].alias = getattr(self.env[n], 'alias', False)      # (a second name for a list object stays one)
         item, items = aux.gensym('item'), aux.gensym('items')
         done = '(' + ', '.join(nm for nm, _t in state_b) + ')'
         body_tr = aux.sub()
@@ -1765,6 +2107,10 @@ class FnTr:
     def _expr(self, e):
         if self.u.hooks.get('worklist'):
             ext = self.ext_expr(e)               # set displays / comprehensions, dict comprehensions: see `ext_expr`
+            if ext is not None:
+                return ext
+        if self.u.hooks.get('pycoll'):
+            ext = self.pc_expr(e)                # int-indexed lists, `/` that raises, map / dict comprehensions, …: see `pc_expr`
             if ext is not None:
                 return ext
         if isinstance(e, ast.Name):
@@ -2383,8 +2729,23 @@ class FnTr:
                 r = hook(self, recv, f.attr, e.args)
                 if r is not None:
                     return r
+            if self.u.hooks.get('pycoll') and recv.typ.startswith('DDL ') and f.attr == 'items' and not e.args:
+                kt, vt = _prod_parts('Prod ' + recv.typ[4:])
+                return Val(recv.text, f'List Prod {_parenw(kt)} {_parenw("List " + vt)}')
+            if self.u.hooks.get('pycoll') and recv.typ.startswith('List ') and f.attr == 'copy' and not e.args:
+                return Val(recv.text, recv.typ)           # a list is a value here
             args = [self.expr(a) for a in e.args]
             ab = self.u.abstract.get((recv.typ, f.attr, tuple(a.typ for a in args)))
+            if ab and ab[1].startswith('Heap '):
+                # a call that creates an object: `(heap', value)`; the value is a *fresh* object
+                if getattr(self, 'heap', None) is None:
+                    raise Unsupported(f'`{self.inst.qual}`: `.{f.attr}()` creates an object, but the instance is not declared to work on the heap')
+                nm = self.gensym('hr')
+                self.pending.append((LetName(nm), ab[0].format(*[_paren(x.text) for x in [recv] + args], h=self.heap)))
+                self.heap = f'{nm}.1'
+                r = Val(f'{nm}.2', ab[1][5:])
+                r.fresh = True
+                return r
             if ab:
                 tmpl, typ = ab
                 return Val('(' + tmpl.format(*[_paren(x.text) for x in [recv] + args]) + ')', typ)
